@@ -48,6 +48,19 @@ def corruptions(src: gen.ChartSrc):
         if p - 1 > 0 or True:
             yield "reorder-tempo-ticks", p, s, True
     for p in range(k):
+        # a verbatim duplicate of the p-th tempo line (same tick, same value)
+        s = copy.deepcopy(src); s.tempo.insert(p + 1, s.tempo[p])
+        yield "verbatim-duplicate-tempo", p + 1, s, True
+    for p in range(1, k):
+        # the p-th tempo moved before its predecessor, its value equal to the tempo it now follows
+        s = copy.deepcopy(src)
+        prev_val = s.tempo[p - 2][1] if p >= 2 else s.tempo[p - 1][1]
+        moved = (s.tempo[p][0], prev_val)
+        del s.tempo[p]
+        s.tempo.insert(p - 1, moved)
+        if p - 1 > 0:
+            yield "move-tempo-earlier-same-value", p, s, True
+    for p in range(k):
         s = copy.deepcopy(src); s.tempo[p] = (s.tempo[p][0], 0)
         yield "zero-tempo", p, s, None  # decided by what it governs, see below
 
